@@ -4,7 +4,7 @@
 //
 //	hist MODE HOSTIP HOSTMAC ROUTERIP ROUTERMAC HOMEIP HOMEBITS NFIP NFBITS DNS op op ...
 //	op : D|R|X|L,chaddr,xid,ciaddr,cid,req,sid,b,src,prl    (X decline, L release)
-//	     C,mac  U,mac  T,seconds
+//	     C,mac  U,mac  T,seconds  E,clientid,seconds
 //
 // The runner builds every DHCP frame with its own byte writer, feeds it to the
 // real Session.Parse + Handler.ProcessPacket of a fresh session/handler, reads
@@ -349,7 +349,10 @@ func init() {
 	fastlog.DefaultIOWriter = io.Discard
 }
 
-func NewServer(c Cfg) *Server {
+func NewServer(c Cfg) *Server { return NewServerFile(c, "") }
+
+// NewServerFile builds the session and handler on the given lease file ("" = a fresh temporary one).
+func NewServerFile(c Cfg, file string) *Server {
 	nic := &packet.NICInfo{
 		HomeLAN4:    netip.PrefixFrom(ip4(c.HomeIP), c.HomeBits),
 		HostAddr4:   packet.Addr{MAC: c.HostMAC, IP: ip4(c.HostIP)},
@@ -362,7 +365,9 @@ func NewServer(c Cfg) *Server {
 	if dir == "" {
 		dir = os.TempDir()
 	}
-	file := filepath.Join(dir, fmt.Sprintf("dhcp-%d-%d.yaml", os.Getpid(), atomic.AddInt64(&counter, 1)))
+	if file == "" {
+		file = filepath.Join(dir, fmt.Sprintf("dhcp-%d-%d.yaml", os.Getpid(), atomic.AddInt64(&counter, 1)))
+	}
 	h, err := dhcp4_spoofer.Config{Mode: dhcp4_spoofer.Mode(c.Mode), NetfilterIP: netip.PrefixFrom(ip4(c.NfIP), c.NfBits),
 		DNSServer: ip4(c.DNS), LeaseFilename: file}.New(s)
 	if err != nil {
@@ -386,6 +391,13 @@ func (sv *Server) Step(tok string) (string, *Reply) {
 		return "-", nil
 	case "U":
 		sv.S.Release(net.HardwareAddr(unhx(f[1])))
+		return "-", nil
+	case "E":
+		n, err := strconv.ParseInt(f[2], 10, 64)
+		if err != nil {
+			panic(err)
+		}
+		sv.H.VerifSetLeaseExpiry(lib.UnHex(f[1]), time.Now().Add(time.Duration(n)*time.Second))
 		return "-", nil
 	case "T":
 		n, err := strconv.ParseInt(f[1], 10, 64)
@@ -430,4 +442,36 @@ func RunHist(a []string) string {
 		out = append(out, s)
 	}
 	return strings.Join(out, " ") + " | " + sv.Table()
+}
+
+// RunStale is the runner of a "stale" case: cfg tokens, home bits and netfilter bits of an earlier
+// run whose lease file (no leases) is still there, then the ops.
+func RunStale(a []string) string {
+	c, rest := ParseCfg(a)
+	hb, err1 := strconv.Atoi(rest[0])
+	nb, err2 := strconv.Atoi(rest[1])
+	if err1 != nil || err2 != nil {
+		panic("bad stale bits")
+	}
+	sv := NewStaleServer(c, hb, nb)
+	defer sv.Close()
+	ops := rest[2:]
+	out := make([]string, 0, len(ops))
+	for _, o := range ops {
+		s, _ := sv.Step(o)
+		out = append(out, s)
+	}
+	return strings.Join(out, " ") + " | " + sv.Table()
+}
+
+// NewStaleServer: a handler of configuration c started on the lease file an earlier handler with
+// prefix lengths hb/nb (same addresses) left behind.
+func NewStaleServer(c Cfg, hb, nb int) *Server {
+	old := c
+	old.HomeBits, old.NfBits = hb, nb
+	sv0 := NewServer(old) // Config.New saves the file
+	file := sv0.file
+	sv0.H.Close()
+	go sv0.S.Close()
+	return NewServerFile(c, file)
 }
